@@ -6,8 +6,9 @@ ST = "verif-stubs/async_backend.py"
 
 def register(R):
     R.module(ST)
-    R.shape("FutureModel", cls="Future", fields={"pending": "bool", "exception_set": "bool", "result_set": "bool", "owner": "none"})
-    R.shape("FutureDequeModel", cls="FutureDeque", fields={"n": "int", "pending": "int", "rest": "int"})
+    R.shape("FutureModel", cls="Future", fields={"pending": "bool", "exception_set": "bool", "result_set": "bool", "owner": "none", "member": "bool", "cb": "none"})
+    R.shape("FutureDequeModel", cls="FutureDeque", fields={"n": "int", "pending": "int", "rest": "int", "mine": "none"})
+    R.ghost(stranded="int")
     R.shape("EventLoopModel", cls="EventLoop", fields={})
     R.external("traceback.clear_frames", "stubs.stdlib.noop")
     R.module("easynetwork/lowlevel/api_async/backend/_asyncio/tasks.py")
@@ -46,21 +47,23 @@ def register(R):
                  ("idempotent", f"implies(old(self.__connection_lost), {W}.pending == old({W}.pending) and self.__write_paused == old(self.__write_paused))", "C20")] + Jpost,
         modifies=mods, tags="C20",
     )
+    own = [("a-sender-takes-only-its-own-waiter-out: no other suspended sender becomes unreachable for resume_writing/connection_lost", "ghost.stranded == old(ghost.stranded)", "C20"),
+           ("own-waiter-not-left-behind-as-a-pending-member", f"implies(not isnone({W}.mine), not {W}.mine.member or not {W}.mine.pending)", "C20")]
     R.contract(
         "WriteFlowControl.drain",
-        ensures=[("a-drain-has-returned", "ghost.drained_since_write", "C20")] + Jpost,
+        ensures=[("a-drain-has-returned", "ghost.drained_since_write", "C20")] + Jpost + own,
         raises={
-            "OSError": [("lost-connection-is-reported-to-the-sender", "True", "C20")] + Jpost,
-            "BaseException": [("cancelled-sender-removes-only-itself", "True", "C20")] + Jpost,
+            "OSError": [("lost-connection-is-reported-to-the-sender", "True", "C20")] + Jpost + own,
+            "BaseException": [("cancellation-or-failure-while-suspended", "True", "C20")] + Jpost + own,
         },
-        modifies=mods + ["ghost.drained_since_write"],
+        modifies=mods + [f"{W}.mine", "ghost.drained_since_write", "ghost.stranded"],
         env={
             "ghost_on_return": {"drained_since_write": "True"},
             "atomic_inv": J,
             "rely_havoc": ["self.__write_paused", "self.__connection_lost", "self.__connection_lost_exception", f"{W}.n", f"{W}.pending",
                            "?waiter.pending", "?waiter.exception_set"],
             # while this sender is suspended on its waiter, the waiter is a member of the collection and is counted
-            "rely_inv": [f"implies(bound('waiter'), {W}.n >= 1 and implies(waiter.pending, {W}.pending >= 1) and implies(not waiter.pending, {W}.pending <= {W}.n - 1))"],
+            "rely_inv": [f"implies(bound('waiter') and waiter.member, {W}.n >= 1 and implies(waiter.pending, {W}.pending >= 1) and implies(not waiter.pending, {W}.pending <= {W}.n - 1))"],
         },
         tags="C20",
     )
